@@ -5,7 +5,8 @@ CONSTANT MaxOps
 VARIABLES prog, how
 vars == <<prog, how>>
 Tags(n) == {"", "T" \o ToString(n)}
-Adds == {"add_import_func", "add_global", "add_memory", "add_data", "add_export", "add_type", "add_type_parsed", "build"}
+Adds == {"add_import_func", "add_global", "add_memory", "add_import_memory", "add_data", "add_data_active", "add_export",
+         "add_type", "add_type_parsed", "build"}
 Probes == {[f |-> 1, instr |-> 0, mode |-> m] : m \in {"before", "after", "alternate", "func_entry", "func_exit"}}
      \cup {[f |-> 2, instr |-> 0, mode |-> m] : m \in {"before", "block_entry", "block_exit", "semantic_after", "func_exit"}}
 Init == prog = <<>> /\ how \in {"pull", "encode_then_pull"}
